@@ -45,7 +45,7 @@ Ltac open_flush H C :=
   match type of H with context [?bb =? p0] => destruct (Z.eqb_spec bb p0) end; cbn [negb] in H; [|discriminate H]; subst p0;
   rewrite C in H;
   destruct (_ && _ && _ && _) eqn:G; cbn [negb] in H; [|discriminate H];
-  destruct (take_rows _ _ _) as [taken used] eqn:T.
+  destruct (flush_take _ _ _ _) as [taken used] eqn:T.
 
 (* ---------- C17 ---------- *)
 Lemma successors_In b q x : In x (successors b q) <-> In (b, x) q.
@@ -278,6 +278,15 @@ Proof.
     + intros E. destruct (IH _ _ _ _ E) as (A & B & C). repeat split; auto. intros y Hy; right; auto.
 Qed.
 
+Lemma flush_take_sub po l held ht taken used : flush_take po l held ht = (taken, used) ->
+  (forall x, In x taken -> In x l) /\ used = Z.of_nat (length taken) /\
+  (po = true -> taken = l) /\ (po = false -> 0 <= ht -> held <= ht -> held + used <= ht).
+Proof.
+  unfold flush_take. destruct po.
+  - intros E; inversion E; subst. repeat split; auto; discriminate.
+  - intros E. destruct (take_rows_sub _ _ _ _ _ E) as (A & B & C). repeat split; auto; discriminate.
+Qed.
+
 Theorem flush_rows s b sh nrows rmf np s' :
   step s (CT_FLUSHBAR b sh nrows rmf np false) = Some s' -> cycle_err s = false ->
   exists r fi wd ht rows n pc pushes taken pc' pushes',
@@ -286,7 +295,7 @@ Theorem flush_rows s b sh nrows rmf np s' :
     (forall x, In x taken -> In x (bar_rows b r fi)).
 Proof.
   intros H C. open_flush H C. simp_state.
-  destruct (take_rows_sub _ _ _ _ _ T) as (Sub & U & _). subst used.
+  destruct (flush_take_sub _ _ _ _ _ _ T) as (Sub & U & _). subst used.
   assert (Sub' : forall x, In x taken -> In x (bar_rows b r fi)) by (intros x Hx; apply in_rev; auto).
   repeat match type of H with
   | context [match ?x with _ => _ end] => destruct x eqn:?
@@ -394,4 +403,23 @@ Proof.
   intros R H C Q M. split.
   - exact (proj2 (proj2 (proj2 (flush_releases_all pm am dm evs s b nrows rmf false s' R H C)))).
   - exact (proj1 (flush_pop_assign s b nrows rmf s' H C Q M)).
+Qed.
+
+(* the frame in which a bar is popped out holds ALL the rows of that bar, whatever the height: they are what stays on screen *)
+Theorem flush_popout_keeps_all_rows s b nrows rmf s' :
+  step s (CT_FLUSHBAR b 2 nrows rmf false false) = Some s' -> cycle_err s = false -> pop_mode s = true ->
+  exists r fi wd ht rows n pc pushes,
+    lookup b (bars s) = Some r /\ br_frame r = Some fi /\
+    ph s = Rendering wd ht rows n pc pushes /\
+    ph s' = Rendering wd ht (rows ++ List.rev (bar_rows b r fi)) (n + Z.of_nat (length (bar_rows b r fi)))
+                      (pc + Z.of_nat (length (bar_rows b r fi))) pushes.
+Proof.
+  intros H C M. unfold step in H.
+  destruct (ph s) as [|wd ht rows n pc pushes|] eqn:P; try discriminate H.
+  destruct (lookup b (bars s)) as [r|] eqn:L; [|discriminate H].
+  destruct (br_frame r) as [fi|] eqn:F; [|discriminate H].
+  destruct (negb _); [discriminate H|]. rewrite C in H.
+  destruct (negb _); [discriminate H|].
+  simp_state. rewrite M in H. cbn [Z.eqb Pos.eqb andb negb flush_take] in H. rewrite rev_length in H.
+  inversion H; subst; clear H. simp_state. exists r, fi. do 6 eexists. repeat split; try reflexivity; assumption.
 Qed.
